@@ -2791,7 +2791,6 @@ after `parse_block(&mut bp, self.old_style_metadata);`:
         let ghost bp1 = bp;
 after `bp.finish();`:
         proof {
-            assert(bp0.evs() == old(self).q()); assert(bp1.fin() == self.q());
             lemma_next_block_done(r0, self.blk(), start as int, end as int, bp1.toks(), bp1.evs(), bp0.evs());
         }
 @*/
